@@ -10,7 +10,7 @@ var (
 	rev               = `\[([\d|a-f]{5,12})\]`
 	author            = `(.*?)\s\d{4}-\d{2}-\d{2}`
 	date              = `\d{4}-\d{2}-\d{2}`
-	changes           = `([\d-]+)[\t\s]+([\d-]+)[\t\s]+(.*)`
+	changes           = `^([\d-]+)[\t\s]+([\d-]+)[\t\s]+(.*)`
 	complexMoveRegStr = `(.*)\{(.*)\s=>\s(.*)\}(.*)`
 	basicMoveRegStr   = `(.*)\s=>\s(.*)`
 	changeModel       = `\s(\w{1,6})\s(mode 100(\d){3})?\s?(.*)(\s\(\d{2}%\))?`
